@@ -81,6 +81,11 @@ def tlc(module, cfg, workers=8, env=None, timeout=1500, extra=None, heap="8g", d
     t0 = time.time()
     p = subprocess.run(cmd, cwd=SPEC, env=e, stdout=subprocess.PIPE, stderr=subprocess.STDOUT, text=True)
     shutil.rmtree(md, ignore_errors=True)
+    if "java.lang.OutOfMemoryError" in p.stdout and "-Xmx" in e["JAVA_TOOL_OPTIONS"]:
+        # seen once under memory pressure from other processes: one retry with a larger heap, then it is a tool error
+        e["JAVA_TOOL_OPTIONS"] = re.sub(r"-Xmx\w+", "-Xmx16g", e["JAVA_TOOL_OPTIONS"])
+        p = subprocess.run(cmd, cwd=SPEC, env=e, stdout=subprocess.PIPE, stderr=subprocess.STDOUT, text=True)
+        shutil.rmtree(md, ignore_errors=True)
     out = p.stdout
     stats = {"wall_s": round(time.time() - t0, 1)}
     m = re.search(r"(\d+) states generated, (\d+) distinct states found", out)
